@@ -426,8 +426,12 @@ type expectation struct {
 	// PkgShapes: for every included package name, how its files are split between target and
 	// import files (see pkgShape). Coverage counter only; the demand itself is MustFail.
 	PkgShapes []string
-	L, U      *bounds
-	EffExcl   func(string) bool
+	// ImportGenerations (exclude-only filters): see importGenerations. Coverage counter only.
+	ImportGenerations int
+	// ContentFiles (exclude-only filters): files reached without the known-extension step.
+	ContentFiles map[string]bool
+	L, U         *bounds
+	EffExcl      func(string) bool
 }
 
 // pkgShape classifies the files of a package (in image order) by their import flag. The documented
@@ -741,6 +745,44 @@ func (m *imageModel) run(fc *filterCase, xc map[string]bool, upper bool) *bounds
 	return b
 }
 
+// importGenerations says, for an exclude-only filter, how many generations of import files the
+// result needs: generation 1 = import files that the kept content of the target files needs;
+// generation n+1 = import files that are needed only by the (non-excluded) content of the import
+// files of generation <= n. The FilterImage contract keeps a kept import file with all of its
+// non-excluded content, so every generation must be in the image for it to link. The number is a
+// coverage fact (how deep the "needed only by unreferenced content of an import file" relation is
+// nested in the case); the demand itself is the links oracle.
+//
+// The second result is the set of files that this closure reaches WITHOUT the known-extension step
+// (target content, then import file content, generation after generation). A kept import file that
+// is not in it is in the image only as the home of a known extension of a kept message.
+func (m *imageModel) importGenerations(fc *filterCase, xc map[string]bool) (int, map[string]bool) {
+	w := &walker{m: m, fc: fc, xc: xc, full: map[string]bool{}, explicit: map[string]bool{}, dropped: map[string]bool{}, ns: map[string]bool{}, files: map[string]bool{}, why: map[string]string{}, shapes: map[string]bool{}}
+	for _, f := range m.Files {
+		if !f.Import {
+			w.addFile(f)
+		}
+	}
+	walked := map[string]bool{}
+	gen := 0
+	for {
+		var next []*fileM
+		for _, f := range m.Files {
+			if f.Import && w.files[f.Path] && !walked[f.Path] && !xc[f.Path] {
+				next = append(next, f)
+			}
+		}
+		if len(next) == 0 {
+			return gen, w.files
+		}
+		gen++
+		for _, f := range next {
+			walked[f.Path] = true
+			w.addFile(f)
+		}
+	}
+}
+
 // expect computes what property C12 demands for one filter.
 func (m *imageModel) expect(fc *filterCase) *expectation {
 	ex := &expectation{}
@@ -787,6 +829,9 @@ func (m *imageModel) expect(fc *filterCase) *expectation {
 	ex.L = m.run(fc, ex.Xc, false)
 	ex.U = m.run(fc, ex.Xc, true)
 	ex.Exact = ex.L.core == ex.U.core
+	if len(fc.Include) == 0 && ex.MustFail == "" {
+		ex.ImportGenerations, ex.ContentFiles = m.importGenerations(fc, ex.Xc)
+	}
 	ex.DroppedExtExtendees = map[string]bool{}
 	var methods []string
 	for n, e := range m.El {
